@@ -43,7 +43,8 @@ def gen(rng, tier):
                 for kind in ("h2.stream0", "h2.conn0", "h2.pause"):
                     rels = {"h2.stream0": ["credit", "settings_grow", "rst", "eof", "reset"],
                             "h2.conn0": ["credit", "eof", "reset", "rst"],
-                            "h2.pause": ["resume", "reset", "goaway"]}[kind]
+                            # (eof: the client finishes sending - half-close - while it still takes nothing: the connection is over)
+                            "h2.pause": ["resume", "reset", "goaway", "eof"]}[kind]
                     for release in rels:
                         if release == "goaway" and point != "mid":
                             continue  # paused from the very first byte the server never gets past its own SETTINGS: nothing to observe
